@@ -285,14 +285,21 @@ def corpus_groups(prop):
 
 
 # ------------------------------------------------------------------------------------------------ lean side
-def regenerate():
-    """returns (ok, message)"""
+def regenerate(direct=False):
+    """returns (ok, message, notes).  notes: what the regeneration could not re-derive from today's source text and how it is tied instead
+    (see tools/ctrans.py, tools/extract.py): never an alarm by itself."""
     with buildlib.Lock("gen"):
         for tool in ("extract.py", "ctrans.py"):
-            p = subprocess.run([sys.executable, os.path.join(HERE, tool)], stdout=subprocess.PIPE, stderr=subprocess.STDOUT, text=True)
+            cmd = [sys.executable, os.path.join(HERE, tool)] + (["--direct"] if direct and tool == "ctrans.py" else [])
+            p = subprocess.run(cmd, stdout=subprocess.PIPE, stderr=subprocess.STDOUT, text=True)
             if p.returncode != 0:
-                return False, "%s failed: %s" % (tool, p.stdout[-1500:])
-    return True, ""
+                return False, "%s failed: %s" % (tool, p.stdout[-1500:]), []
+        notes = []
+        for f in ("regen_notes_extract.json", "regen_notes_ctrans.json"):
+            fp = os.path.join(VERIF, "build", f)
+            if os.path.exists(fp):
+                notes += json.load(open(fp))
+    return True, "", notes
 
 
 def lake_build(targets):
@@ -445,11 +452,25 @@ def main():
     # ---- 1/2: generated sources, proofs
     proof_ok = True
     proof_msgs = []
-    ok, msg = regenerate()
+    ok, msg, regen_notes = regenerate()
     if not ok:
         proof_ok = False
         proof_msgs.append("regeneration of the generated Lean definitions failed: " + msg)
-    build_ok, out = (False, "") if not ok else lake_build(["Utcp", "driver"] + ["Utcp.Props." + os.path.basename(f)[:-5] for f in prop_modules(prop)])
+    targets = ["Utcp", "driver"] + ["Utcp.Props." + os.path.basename(f)[:-5] for f in prop_modules(prop)]
+    build_ok, out = (False, "") if not ok else lake_build(targets)
+    if ok and not build_ok and any("reads differently" in nt for nt in regen_notes) and "PureFns" in out:
+        # an equivalence theorem (today's translation = the definition the theorems were written for) did not go through with the
+        # stock tactics: second chance - make today's translations the definitions and re-check the property theorems against them
+        ok2, msg2, notes2 = regenerate(direct=True)
+        if ok2:
+            build_ok2, out2 = lake_build(targets)
+            if build_ok2:
+                build_ok, out, regen_notes = True, out2, notes2 + ["an equivalence theorem did not go through with the stock tactics; the property theorems were re-checked directly against today's translations"]
+            else:
+                regenerate()
+                lake_build(["Utcp", "driver"])
+    for nt in regen_notes:
+        log("NOTE regeneration: " + nt)
     if ok and not build_ok:
         proof_ok = False
         errs = [l for l in out.splitlines() if "error" in l][:8]
@@ -638,7 +659,7 @@ def main():
             "evaluations": len(flat) * (3 if have_model else 2), "scenarios": len(flat), "distinct_nontrivial": nontrivial,
             "rule": "scenario = seeded op sequence (see tools/scen.py); distinct by SHA-1 of the op text; non-trivial when the real code produced more than 3 observable events (deliveries, verdicts, datagrams, accepts, hostile injections)",
             "samples": samples, "families": fam_count, "model_vs_code_disagreements": len(diffs), "monitor_violations": len(mine), "crashes": len(crashes),
-            "input_distribution": {kk: vv for kk, vv in stats_tot.items() if kk != "ret_codes"}, "direct_searches": notes,
+            "input_distribution": {kk: vv for kk, vv in stats_tot.items() if kk != "ret_codes"}, "direct_searches": notes, "regeneration_notes": regen_notes,
             "return_codes_hit": stats_tot.get("ret_codes", {}),
             "traces_validated_against_impl": len(flat) if have_model else 0,
         },
